@@ -122,34 +122,34 @@ ResolveSR(G, tok, r) ==
   ELSE [act |-> ErrAct, default |-> FALSE]
 ResolveRR(G, r1, r2) == [act |-> Reduce(IF r1 < r2 THEN r1 ELSE r2), default |-> TRUE]
 
-\* candidates of cell (I, a) given a look-ahead function la on reduce points
+\* candidates of cell (I, a) given a look-ahead function lah on reduce points
 CandShift(G, I, a)    == a # End /\ a \in NextSyms(G, I)
-CandReds(G, la, I, a) == {r \in DOMAIN G.rules : <<r, Len(Rhs(G, r))>> \in I /\ a \in la[<<I, r>>]}
-NCand(G, la, I, a)    == (IF CandShift(G, I, a) THEN 1 ELSE 0) + Cardinality(CandReds(G, la, I, a))
+CandReds(G, lah, I, a) == {r \in DOMAIN G.rules : <<r, Len(Rhs(G, r))>> \in I /\ a \in lah[<<I, r>>]}
+NCand(G, lah, I, a)    == (IF CandShift(G, I, a) THEN 1 ELSE 0) + Cardinality(CandReds(G, lah, I, a))
 
 \* both rules of a reduce/reduce conflict carry precedence: the property does
 \* not say what happens (don't care)
-RRBothPrec(G, reds) == \A r \in reds : RulePrec(G, r).level # 0
+RRBothPrec(G, rds) == \A r \in rds : RulePrec(G, r).level # 0
 
 \* The action of a cell with at most two candidates ("dc" = don't care)
-CellAct(G, la, I, a) ==
-  LET reds == CandReds(G, la, I, a) sh == CandShift(G, I, a) n == NCand(G, la, I, a) IN
+CellAct(G, lah, I, a) ==
+  LET rds == CandReds(G, lah, I, a) sh == CandShift(G, I, a) n == NCand(G, lah, I, a) IN
   IF n = 0 THEN ErrAct
   ELSE IF n = 1 THEN (IF sh THEN Shift
-                      ELSE LET r == CHOOSE r \in reds : TRUE IN IF r = 1 THEN AccAct ELSE Reduce(r))
-  ELSE IF n = 2 /\ sh THEN ResolveSR(G, a, CHOOSE r \in reds : TRUE).act
-  ELSE IF n = 2 /\ ~RRBothPrec(G, reds)
-       THEN LET r == CHOOSE r \in reds : \A r2 \in reds : r <= r2 IN IF r = 1 THEN AccAct ELSE Reduce(r)
+                      ELSE LET r == CHOOSE r \in rds : TRUE IN IF r = 1 THEN AccAct ELSE Reduce(r))
+  ELSE IF n = 2 /\ sh THEN ResolveSR(G, a, CHOOSE r \in rds : TRUE).act
+  ELSE IF n = 2 /\ ~RRBothPrec(G, rds)
+       THEN LET r == CHOOSE r \in rds : \A r2 \in rds : r <= r2 IN IF r = 1 THEN AccAct ELSE Reduce(r)
   ELSE [k |-> "dc", n |-> 0]
 
 \* cells whose resolution needed the default rules
-DefaultCells(G, la, S0, T) ==
-  {<<I, a>> \in S0 \X T : NCand(G, la, I, a) = 2 /\
-      IF CandShift(G, I, a) THEN ResolveSR(G, a, CHOOSE r \in CandReds(G, la, I, a) : TRUE).default
-      ELSE ~RRBothPrec(G, CandReds(G, la, I, a))}
+DefaultCells(G, lah, S0, T) ==
+  {<<I, a>> \in S0 \X T : NCand(G, lah, I, a) = 2 /\
+      IF CandShift(G, I, a) THEN ResolveSR(G, a, CHOOSE r \in CandReds(G, lah, I, a) : TRUE).default
+      ELSE ~RRBothPrec(G, CandReds(G, lah, I, a))}
 \* cells with 3+ candidates of which some lacks a precedence: warning is don't care
-MurkyCells(G, la, S0, T) ==
-  {<<I, a>> \in S0 \X T : NCand(G, la, I, a) >= 3 /\
-      ((CandShift(G, I, a) /\ PrecOf(G, a).level = 0) \/ \E r \in CandReds(G, la, I, a) : RulePrec(G, r).level = 0)}
-ConflictCells(G, la, S0, T) == {<<I, a>> \in S0 \X T : NCand(G, la, I, a) >= 2}
+MurkyCells(G, lah, S0, T) ==
+  {<<I, a>> \in S0 \X T : NCand(G, lah, I, a) >= 3 /\
+      ((CandShift(G, I, a) /\ PrecOf(G, a).level = 0) \/ \E r \in CandReds(G, lah, I, a) : RulePrec(G, r).level = 0)}
+ConflictCells(G, lah, S0, T) == {<<I, a>> \in S0 \X T : NCand(G, lah, I, a) >= 2}
 =============================================================================
